@@ -179,6 +179,27 @@ pub fn exec(func: &str, a: &mut Args) -> String {
             let m = NonlinearRigidMotion::new(start, lc, lv, zero_angvel());
             fiso(&m.position_at_time(t))
         }
+        // the broad-phase test of the composite cast: `TOICompositeShapeShapeBestFirstVisitor::new` + the box test of `visit`
+        // (no leaf data), on one BVH box given explicitly: `<kept> <weight>` of lane 0 (the four lanes carry the same box)
+        "cull" => {
+            use px::partitioning::{SimdBestFirstVisitStatus, SimdBestFirstVisitor};
+            use px::query::details::TOICompositeShapeShapeBestFirstVisitor;
+            use px::bounding_volume::{Aabb, SimdAabb};
+            use px::na::SimdValue;
+            let pos12 = dx::iso(a); let vel12 = dx::v(a); let g2 = shape(a); let max_toi = a.f(); let target = a.f();
+            let mins = dx::p(a); let maxs = dx::p(a);
+            let o = ShapeCastOptions { max_time_of_impact: max_toi, target_distance: target, stop_at_penetration: true, compute_impact_geometry_on_penetration: false };
+            let g1 = Polyline::new(vec![P::origin(), P::from(axis(0, 1.0))], None);
+            let disp = query::DefaultQueryDispatcher;
+            let mut vis = TOICompositeShapeShapeBestFirstVisitor::new(&disp, &pos12, &vel12, &g1, &*g2, o);
+            match vis.visit(f64::MAX, &SimdAabb::splat(Aabb::new(mins, maxs)), None) {
+                SimdBestFirstVisitStatus::MaybeContinue { weights, mask, .. } => {
+                    let same = (1..4).all(|i| mask.extract(i) == mask.extract(0) && weights.extract(i).to_bits() == weights.extract(0).to_bits());
+                    if !same { "lanes-differ".into() } else { format!("{} {}", b(mask.extract(0)), ff(weights.extract(0))) }
+                }
+                SimdBestFirstVisitStatus::ExitEarly(_) => "exit-early".into(),
+            }
+        }
         // oracle-only end-to-end run: real cast + real distance queries at the returned / sampled times
         "e2e" => {
             let pos1 = dx::iso(a); let vel1 = dx::v(a); let g1 = shape(a);
